@@ -433,7 +433,7 @@ Lemma hstep_sim ms ss op : strel ms ss ->
   snd (mhstep c ms op) = snd (sstep exp ss op) /\ strel (fst (mhstep c ms op)) (fst (sstep exp ss op)).
 Proof.
   intros [Hobjs Hgens]. pose proof (Forall2_length' _ _ _ Hobjs) as Hlen.
-  destruct op as [o f|g|g|o|o|o f|p].
+  destruct op as [o f|g|g|o|o|o f|p|o].
   - (* iter_...(f) *)
     cbn [mhstep sstep]. pose proof (Forall2_nth_error _ _ _ o Hobjs) as Ho.
     destruct (nth_error (m_objs ms) o) as [m|], (nth_error (s_objs ss) o) as [s|]; try tauto; cbn [fst snd].
@@ -494,6 +494,9 @@ Proof.
     + rewrite (irel_views _ _ Hall), Hlen. reflexivity.
     + split; [|exact Hgens]. cbn [m_objs s_objs]. apply Forall2_app; [exact Hobjs|]. apply irel_children, Hall.
   - cbn [mhstep sstep fst snd]. split; [reflexivity|split; assumption].
+  - cbn [mhstep sstep]. pose proof (Forall2_nth_error _ _ _ o Hobjs) as Ho.
+    destruct (nth_error (m_objs ms) o) as [m|], (nth_error (s_objs ss) o) as [s|]; try tauto; cbn [fst snd];
+      (split; [reflexivity|split; assumption]).
 Qed.
 
 Lemma run_sim : forall h ms ss, strel ms ss -> mrun c ms h = srun exp ss h.
@@ -546,7 +549,7 @@ Lemma estep_sim st sp op : erel st sp ->
        (fst (estep_spec (num_entry sh_size) (get_entry img le sh_offset sh_size) bc_decode sp op)).
 Proof.
   intros (Hmemo & Hents & Hdecs).
-  destruct op as [|n|e|e|e|d|d]; cbn [estep estep_spec].
+  destruct op as [|n|e|e|e|d|d| |]; cbn [estep estep_spec].
   - rewrite (info_num_ok _ Hmemo). cbn [fst snd]. split; [reflexivity|]. repeat split; auto.
   - rewrite (info_num_ok _ Hmemo).
     change (info_get img le sh_offset (num_entry sh_size) n) with (get_entry img le sh_offset sh_size n).
@@ -576,6 +579,8 @@ Proof.
     destruct (nth_error (ei_decoders st) d) as [o|], (nth_error (es_decoders sp) d) as [bc|]; try tauto; cbn [fst snd];
       [|split; [reflexivity|repeat split; auto]].
     destruct Hd as [Hb Hi]. rewrite Hi. split; [reflexivity|]. repeat split; auto.
+  - cbn [fst snd]. split; [reflexivity|]. repeat split; auto.
+  - cbn [fst snd]. split; [reflexivity|]. repeat split; auto.
 Qed.
 
 Lemma erun_sim : forall h st sp, erel st sp ->
@@ -617,7 +622,7 @@ Proof. destruct x; [discriminate|]. intros H. exact H. Qed.
 Lemma sstep_obj0 exp st op : nth_error (s_objs st) 0 = Some SSec ->
   nth_error (s_objs (fst (sstep exp st op))) 0 = Some SSec.
 Proof.
-  intros H. destruct op as [o f|g|g|o|o|o f|p]; cbn [sstep].
+  intros H. destruct op as [o f|g|g|o|o|o f|p|o]; cbn [sstep].
   - destruct (nth_error (s_objs st) o); exact H.
   - destruct (nth_error (s_gens st) g) as [s|]; [|exact H]. destruct (sg_done s); [exact H|].
     destruct (find_match _ _ _) as [[k [c v]]|]; cbn [fst s_objs]; [|exact H].
@@ -627,6 +632,7 @@ Proof.
   - destruct (nth_error (s_objs st) o); [|exact H]. cbn [fst s_objs]. apply nth0_app, H.
   - destruct (nth_error (s_objs st) o); [|exact H]. cbn [fst s_objs]. apply nth0_app, H.
   - exact H.
+  - destruct (nth_error (s_objs st) o); exact H.
 Qed.
 
 Lemma sstate_after_obj0 exp : forall h st, nth_error (s_objs st) 0 = Some SSec ->
